@@ -1538,6 +1538,7 @@ int main(int argc, char **argv)
 	if (argc >= 3 && !strcmp(argv[1], "-b")) {
 		char *text = slurp(argv[2]);
 		char *p = text;
+		int hangs = 0;
 		while (p && *p) {
 			char *hdr, *body, *next;
 			char id[128];
@@ -1556,6 +1557,13 @@ int main(int argc, char **argv)
 				*next = 0;
 				next++;
 			}
+			if (hangs >= 3) {
+				/* this scanner hangs again and again: do not spend the
+				 * time-out on every remaining plan of the batch */
+				printf("### begin %s\n### end %s skipped\n", id, id);
+				p = next;
+				continue;
+			}
 			printf("### begin %s\n", id);
 			fflush(stdout);
 			pid = fork();
@@ -1569,6 +1577,8 @@ int main(int argc, char **argv)
 				die("fork failed");
 			while (waitpid(pid, &st, 0) < 0 && errno == EINTR)
 				;
+			if (WIFSIGNALED(st) && WTERMSIG(st) == SIGALRM)
+				hangs++;
 			if (WIFSIGNALED(st))
 				printf("### end %s signal=%d\n", id, WTERMSIG(st));
 			else
